@@ -243,6 +243,48 @@ def strip_r0(toks):
     return out, fired
 
 
+def _bytestr_bytes(lit):
+    body = lit[2:-1]
+    out = []
+    i = 0
+    while i < len(body):
+        c = body[i]
+        if c == "\\":
+            n = body[i + 1]
+            if n == "x":
+                out.append(int(body[i + 2:i + 4], 16))
+                i += 4
+                continue
+            m = {"n": 10, "r": 13, "t": 9, "\\": 92, "0": 0, '"': 34, "'": 39}
+            if n in m:
+                out.append(m[n])
+                i += 2
+                continue
+            if n == "\n":   # line continuation
+                i += 2
+                while i < len(body) and body[i] in " \t\n":
+                    i += 1
+                continue
+            raise GenError("unsupported escape in byte string %r" % lit)
+        out.extend(c.encode("utf-8"))
+        i += 1
+    return out
+
+
+def rewrite_r4(toks):
+    """R4: byte-string literal b"..." -> &[0x.., ..] array literal with the same bytes."""
+    fired = False
+    out = []
+    for t in toks:
+        if t.kind == "str" and t.text.startswith('b"'):
+            bs = _bytestr_bytes(t.text)
+            out.append(rl.Tok("str4", "&[" + ", ".join("0x%02xu8" % b for b in bs) + "]", t.start, t.end))
+            fired = True
+        else:
+            out.append(t)
+    return out, fired
+
+
 def split_signature(toks, body_idx):
     """toks[:body_idx] is the header of a fn item (already R0-stripped).  Return dict of text parts."""
     # find `fn`
@@ -425,6 +467,16 @@ def _unq(s):
     return "".join(out)
 
 
+def expand_bytes_macro(text):
+    """template convenience: @b"abc" -> seq![0x61u8, 0x62u8, 0x63u8] (spec-level byte strings)"""
+    def rep(m):
+        bs = _bytestr_bytes('b"' + m.group(1) + '"')
+        if not bs:
+            return "Seq::<u8>::empty()"
+        return "seq![" + ", ".join("0x%02xu8" % b for b in bs) + "]"
+    return re.sub(r'@b"((?:[^"\\]|\\.)*)"', rep, text)
+
+
 def expand_includes(text, base, depth=0):
     out = []
     for line in text.split("\n"):
@@ -579,6 +631,7 @@ def _parse_header(h):
 def generate(unit, template_text, repo_root, units_dir=None):
     if units_dir:
         template_text = expand_includes(template_text, units_dir)
+    template_text = expand_bytes_macro(template_text)
     parsed, gsubs = parse_template(template_text)
     g = Generated()
     cur_props = []
@@ -605,6 +658,9 @@ def generate(unit, template_text, repo_root, units_dir=None):
         rules = []
         stoks, fired = strip_r0(toks)
         rules += sorted(fired)
+        stoks, f4 = rewrite_r4(stoks)
+        if f4:
+            rules.append("R4:bytestr->array")
         stext = "".join(t.text for t in stoks)
         if opts.get("subst"):
             for pair in opts["subst"].split(","):
@@ -620,6 +676,20 @@ def generate(unit, template_text, repo_root, units_dir=None):
                    tline=blk.tline)
         g.items.append(rec)
         if blk.kind in ("type", "item"):
+            if blk.kind == "type" and not opts.get("private"):
+                # visibility normalisation (R0): everything in the generated file is `pub`
+                stext = re.sub(r"^(\s*)(struct|enum|union)\b", r"\1pub \2", stext, count=1, flags=re.M)
+                if re.match(r"^\s*pub struct\b[^;{]*\{", stext, re.S):
+                    stext = re.sub(r"(?m)^(\s+)([A-Za-z_][A-Za-z0-9_]*\s*:)", r"\1pub \2", stext)
+                elif re.match(r"^\s*pub struct\b[^;{]*\(", stext, re.S):
+                    # tuple struct: make the fields pub
+                    m_ = re.match(r"^(\s*pub struct\b[^(]*\()(.*)(\)\s*;\s*)$", stext, re.S)
+                    if m_:
+                        fields = ", ".join("pub " + f.strip() for f in m_.group(2).split(",") if f.strip())
+                        stext = m_.group(1) + fields + m_.group(3)
+                rules.append("R0:pub-normalise")
+            if blk.kind == "item" and not opts.get("private"):
+                stext = re.sub(r"(?m)^([ \t]*)(const|static|type)\b", r"\1pub \2", stext, count=1)
             stext = _apply_edits(stext, blk.edits, rules, where)
             g.emit(stext, kind="item", tline=blk.tline, src=rel, srcline=start_line, props=props)
             continue
